@@ -123,6 +123,14 @@ class TermEval:
                 # a statement with an effect outside the value computation (e.g. filling a cache): the value terms are still read off the returns
                 self.side_effects = getattr(self, "side_effects", []) + [" ".join(u(s).split())[:70]]
                 continue
+            if isinstance(s, ast.Try) and not s.finalbody:
+                # the value terms of the protected block (and of its else clause) are read off as if it were inline; a handler contributes
+                # its own paths (it runs instead of the rest of the protected block)
+                out = self.paths(s.body + s.orelse + stmts[i + 1:], env, conds)
+                for h in s.handlers:
+                    src = "except %s" % (u(h.type) if h.type is not None else "")
+                    out += self.paths(h.body + stmts[i + 1:], env, conds + ((src, True),))
+                return out
             raise Inconclusive("operator term: statement `%s`" % u(s)[:60])
         return [(conds, "FALL", env)]
 
